@@ -4,6 +4,8 @@ package state
 import (
 	"github.com/NethermindEth/juno/core"
 	"github.com/NethermindEth/juno/core/felt"
+	"github.com/NethermindEth/juno/core/trie2/triedb"
+	"github.com/NethermindEth/juno/db"
 	"github.com/NethermindEth/juno/db/memory"
 	"github.com/NethermindEth/juno/zzverif/vx"
 )
@@ -14,6 +16,20 @@ import (
 // at symbolic increasing heights for the probed slot / nonce / class hash, plus entries of the
 // neighbouring slots and contracts on both sides of the prefix; the queried height is symbolic.
 
+// The reader / state under test are built by the package's own constructors (whatever these initialise
+// - caches included - is initialised); the state root is irrelevant to history reads and writes.
+func vxReaderOn(d *memory.Database) *StateReader {
+	sr, err := NewStateReader(&felt.Zero, NewStateDB(d, triedb.New(d, nil)))
+	vx.Assert(err == nil, "reader-opens")
+	return sr
+}
+
+func vxStateOn(d *memory.Database, batch db.Batch) *State {
+	st, err := New(&felt.Zero, NewStateDB(d, triedb.New(d, nil)), batch)
+	vx.Assert(err == nil, "state-opens")
+	return st
+}
+
 func vxFeltIn(name string) *felt.Felt {
 	b := vx.FeltBytes(name)
 	return new(felt.Felt).SetBytes(b[:])
@@ -22,7 +38,7 @@ func vxFeltIn(name string) *felt.Felt {
 func VxC03NewBackendHistory() {
 	vx.Bound("0..3 history entries at symbolic increasing 64-bit heights, symbolic values; neighbouring slot/contract entries on both sides; symbolic query height; storage | nonce | class hash")
 	d := memory.New()
-	sr := &StateReader{db: &StateDB{disk: d}}
+	sr := vxReaderOn(d)
 	addr := felt.NewFromUint64[felt.Felt](0x1000)
 	slot := felt.NewFromUint64[felt.Felt](0x20)
 	kind := vx.Choice("kind", 3)
@@ -115,7 +131,7 @@ func VxC03NewBackendHistory() {
 func VxC03HistoryWriteThenRevert() {
 	vx.Bound("one block at symbolic height n > earlier entries; diff sections {storage, nonce, replaced class, deployed contract} each present or absent; values symbolic")
 	d := memory.New()
-	sr := &StateReader{db: &StateDB{disk: d}}
+	sr := vxReaderOn(d)
 	a1 := felt.NewFromUint64[felt.Felt](0x1000) // existing contract
 	a2 := felt.NewFromUint64[felt.Felt](0x2000) // deployed by the block
 	slot := felt.NewFromUint64[felt.Felt](0x20)
@@ -155,7 +171,7 @@ func VxC03HistoryWriteThenRevert() {
 		vx.Cover("deployed")
 	}
 	batch := d.NewBatch()
-	st := &State{batch: batch}
+	st := vxStateOn(d, batch)
 	vx.Assert(st.writeHistory(n, &diff) == nil, "write-history-ok")
 	vx.Assert(batch.Write() == nil, "commit-block")
 	// while the block is in place, reads at and above n answer what the block wrote (zero included:
@@ -187,7 +203,7 @@ func VxC03HistoryWriteThenRevert() {
 	}
 	// revert
 	batch2 := d.NewBatch()
-	st2 := &State{batch: batch2}
+	st2 := vxStateOn(d, batch2)
 	vx.Assert(st2.deleteHistory(n, &diff) == nil, "delete-history-ok")
 	vx.Assert(batch2.Write() == nil, "commit-revert")
 	vx.Assert(countKeys() == before, "revert-leaves-no-orphan-history-entry")
